@@ -32,6 +32,19 @@ def prepare(tier):
 
 
 def cases(plan, tier, shard, nshards, host):
+    import glob
+    import os
+
+    # versions without an interpreter (corpus of 1.x, 2.0-2.6, 3.0-3.5, PyPy): reference = M-resolve, a plain table
+    # lookup by category (the same rule CPython's dis applies in every version), with the categories of the table
+    # xdis picks; M-resolve itself is replayed against all nine real interpreters on every program case below
+    m = 0
+    for f in sorted(glob.glob(os.path.join(common.REPO, "test", "bytecode_*", "*.pyc"))):
+        if "dropbox" in f or os.path.getsize(f) > (12000 if tier == "quick" else 200000):
+            continue
+        m += 1
+        if m % nshards == shard:
+            yield {"kind": "corpus", "path": os.path.relpath(f, common.REPO)}
     for v in common.REFS:
         P = common.read_meta(plan["raw"][v])["P"]
         cat = {}
@@ -54,10 +67,14 @@ def cases(plan, tier, shard, nshards, host):
 
 
 def case_key(c):
+    if c["kind"] == "corpus":
+        return "corpus:" + c["path"]
     return "%s:%s:%s" % (c["kind"], c["ver"], c.get("opname") or c.get("id"))
 
 
 def describe(c):
+    if c["kind"] == "corpus":
+        return c
     if c["kind"] == "resolve":
         return {"kind": "resolve", "version": c["ver"], "opcode": c["opname"], "category": c["cat"],
                 "first_reference_instructions": c["insts"][:4]}
@@ -103,7 +120,70 @@ def _compare(ctx, vtag, ver, where, xins, refs, cat_of):
             ctx.violation("%s:%s:argrepr-empty" % (vtag, name), "empty argrepr for %s %r" % (name, arg))
 
 
+def m_resolve(op, arg, co, P, ver):
+    """M-resolve: what dis resolves a table-indexed operand to (pre-3.11 rules); None = not table-indexed"""
+    if arg is None:
+        return None
+    if op in P["hasconst"]:
+        return ("const", co.co_consts[arg])
+    if op in P["hasname"]:
+        return ("name", co.co_names[arg])
+    if op in P["haslocal"]:
+        return ("local", co.co_varnames[arg])
+    if op in P["hasfree"]:
+        free = tuple(getattr(co, "co_cellvars", ())) + tuple(getattr(co, "co_freevars", ()))
+        return ("free", free[arg])
+    if op in P["hascompare"]:
+        return ("compare", P["cmp_op"][arg])
+    return None
+
+
+def run_corpus(case, ctx):
+    import os
+    import re
+
+    from xdis.disasm import get_opcode
+    from xdis.load import load_module
+
+    try:
+        res = load_module(os.path.join(common.REPO, case["path"]))
+    except Exception:
+        return
+    ver, co, pypy = tuple(res[0][:2]), res[3], res[4]
+    if not hasattr(co, "co_code") or ver >= (3, 11) or ver < (1, 3):
+        return
+    fam = re.search(r"bytecode_([^/]+)/", case["path"]).group(1)
+    opc = get_opcode(ver, pypy)
+    P = {c: set(getattr(opc, c, ())) for c in CATNAME}
+    P["cmp_op"] = opc.cmp_op
+    for c in walk_xcodes(co):
+        ctx.count("corpus_code_objects")
+        try:
+            xins = xinst.xinsts(c, opc)
+        except Exception as e:
+            ctx.violation("corpus-%s:raises:%s" % (fam, type(e).__name__), "%r in %s/%s" % (e, case["path"], c.co_name))
+            continue
+        for i in xins:
+            try:
+                want = m_resolve(i.opcode, i.arg, c, P, ver)
+            except IndexError:
+                continue  # operand outside its table (PyPy leaves some out): no reference
+            if want is None:
+                continue
+            ctx.count("corpus_instructions_compared")
+            got = i.argval
+            w = want[1]
+            if want[0] == "compare":
+                got, w = str(got).replace("-", " "), str(w).replace("-", " ")
+            if got is not w and got != w:
+                ctx.violation("corpus-%s:%s:argval" % (fam, i.opname), "%s operand %r resolves to %r, table lookup gives %r (%s/%s)"
+                              % (i.opname, i.arg, got, w, case["path"], c.co_name))
+                break
+
+
 def run_case(case, ctx):
+    if case["kind"] == "corpus":
+        return run_corpus(case, ctx)
     ver = tuple(case["ver"])
     vtag = "%d.%d" % ver
     opc = xinst.opc_for(ver)
@@ -135,3 +215,22 @@ def run_case(case, ctx):
             ctx.violation("%s:prog-raises:%s" % (vtag, type(e).__name__), "%r in %s" % (e, case["id"]))
             continue
         _compare(ctx, vtag, ver, case["id"] + "/" + rc["name"], xins, rc["insts"], cat_of)
+        if ver < (3, 11):
+            # conformance of M-resolve with the real interpreter's dis on this code object
+            PM = {c: set(P[c]) for c in CATNAME}
+            PM["cmp_op"] = ["<", "<=", "==", "!=", ">", ">=", "in", "not in", "is", "is not", "exception match", "BAD"]
+            for r in rc["insts"]:
+                if r[3] is None or r[4] is None or r[4][0] == "r":
+                    continue
+                try:
+                    w = m_resolve(r[1], r[3], xc, PM, ver)
+                except IndexError:
+                    w = None
+                if w is None:
+                    continue
+                mv = xargval(w[1], ver, is_compare=(w[0] == "compare"))
+                ref = r[4] if w[0] != "compare" else ["s", r[4][1].replace("-", " ")]
+                if mv != ref:
+                    ctx.violation("HARNESS:M-resolve-conformance:%s" % vtag, "model %s vs dis %s for %s %r (%s)" % (mv, ref, r[2], r[3], case["id"]))
+                    break
+                ctx.count("model_conformance_M-resolve")
